@@ -70,6 +70,8 @@ def main():
             print('   vcheck', p, 'exit', rc, '|', '; '.join(l[:160] for l in lines[:3]))
     finally:
         sh('git -C /repo reset -q --hard HEAD')
+        # evidence and replays written under the seeded change do not describe /repo: restore the committed ones
+        sh('git checkout -- evidence', cwd=VERIF)
     meta['checks'] = results
     meta['detected_by'] = [p for p, r in results.items() if r['exit'] == 1]
     return finish(name, patch, demo, meta)
